@@ -29,12 +29,14 @@ REQUIRED_THEOREMS = [
     "SpecVerif.Props.C05.unchanged_noop",
     "SpecVerif.Props.C05.missing_noop_partial",
     "SpecVerif.Props.C05.missing_constructs_witness",
+    "SpecVerif.Props.C05.write_resets_dependants",
 ]
 RULE = (
     "case = class family (2 hand-written families + seeded random families from the grammar: int/str/bool/float/"
     "Optional/Union/Literal, List/Dict/Set of scalars, nested spec class, keyed spec class, Optional[spec]; no default / "
     "immutable / mutable / default_factory / Attr(...) / dataclasses.field defaults; preparers incl. one reading another "
     "attribute of the instance; item preparers; spec and plain subclasses one and two levels deep) x receiver class x "
+    "(also: invalidated_by dependants; preparers inherited by re-defaulting / re-annotating spec subclasses, eager and lazy) x "
     "constructor keywords x a history of 4..14 calls drawn from every scalar/top-level helper x documented call form "
     "(value, keywords, value+keywords, transform, attribute transforms, no argument) x _inplace x _if, with `obj.a = v` "
     "and `del obj.a`; about half of the copy results are adopted as the next receiver, so later calls start from "
@@ -49,7 +51,8 @@ ASSUMPTIONS = [
     "applied to it as for `with_<a>` (documented equivalence `a.x = v` == `a.with_x(v, _inplace=True)`)",
     "`reset_<a>` / `del` of an attribute that is unset and has no default may raise AttributeError (plain Python `del`)",
     "sets aimed at list attributes have at most one element (CPython set iteration order is not modelled)",
-    "frozen classes, invalidated_by, do_not_copy, KeyedList/KeyedSet attributes and init=False are covered by C07/C11/C02/C13/C14/C09",
+    "invalidated_by: dependants are plain attributes without preparers whose defaults conform (spec_property caches: C11/C12)",
+    "frozen classes, do_not_copy, KeyedList/KeyedSet attributes and init=False are covered by C07/C02/C13/C14/C09",
 ]
 OPEN_STATEMENTS = [
     "MissingNoopFull (MISSING/EMPTY make every scalar helper a no-op returning the receiver) is refuted by "
@@ -88,8 +91,11 @@ KNOWN_MATCHERS = {FINDING_TAG: _missing_constructs}
 INT, STR, BOOL, FLOAT = ["int"], ["str"], ["bool"], ["float"]
 
 
-def A(name, ty, dk="none", d=None, prep=None, ip=None):
-    return {"name": name, "ty": ty, "dk": dk, "d": d, "prep": prep, "ip": ip}
+def A(name, ty, dk="none", d=None, prep=None, ip=None, inv=None):
+    out = {"name": name, "ty": ty, "dk": dk, "d": d, "prep": prep, "ip": ip}
+    if inv:
+        out["inv"] = list(inv)
+    return out
 
 
 FAMILY_MAIN = {
@@ -168,6 +174,46 @@ FAMILY_PREP = {
         ]},
         {"id": 2, "kind": "spec", "base": 0, "key": None, "attrs": [A(9, INT, "value", "i4", prep=4)]},
         {"id": 3, "kind": "plain", "base": 2, "over": {"0": "i10", "9": "i0"}},
+        # spec subclasses that merely re-default / re-annotate attributes whose preparers live on the base class
+        {"id": 4, "kind": "spec", "base": 0, "key": None, "over": {"0": "i3", "1": "i2", "3": "L 2 i1 i2", "4": "N"},
+         "attrs": []},
+        {"id": 5, "kind": "spec", "base": 4, "key": None, "over": {"0": "i5"}, "reann": {"1": "i4", "7": None},
+         "attrs": [A(10, INT, "value", "i1")]},
+        {"id": 6, "kind": "plain", "base": 5, "over": {"0": "i6"}},
+        {"id": 7, "kind": "spec", "base": 2, "key": None, "reann": {"9": "i2", "0": None}, "over": {"5": "S 1 i3"},
+         "attrs": []},
+    ]
+}
+
+
+def lazy_variant(fam):
+    """the same family with lazily bootstrapped spec classes"""
+    out = copy.deepcopy(fam)
+    for cd in out["classes"]:
+        if cd["kind"] == "spec":
+            cd["eager"] = False
+    return out
+
+
+# invalidated_by: dependants (no preparers) of attributes a0 / a4, transitively a2 <- a1 <- a0
+FAMILY_INV = {
+    "classes": [
+        {"id": 1, "kind": "spec", "base": None, "key": None, "attrs": [
+            A(0, INT, "value", "i1"), A(1, INT, "value", "i7", inv=[0])]},
+        {"id": 0, "kind": "spec", "base": None, "key": None, "attrs": [
+            A(0, INT, "value", "i1"),
+            A(1, INT, "value", "i10", inv=[0]),
+            A(2, INT, inv=[1]),
+            A(3, STR, "value", "s100", inv=[0, 4]),
+            A(4, INT, "value", "i0", prep=1),
+            A(5, ["list", INT], "factory", "L 1 i1", inv=[4]),
+            A(6, V.opt(INT), "value", "N", inv=[7]),
+            A(7, ["spec", 1]),
+            A(8, BOOL, "value", "F", inv=[2]),
+        ]},
+        {"id": 2, "kind": "spec", "base": 0, "key": None, "over": {"0": "i2", "1": "i11"}, "attrs": [
+            A(9, INT, "value", "i5", inv=[0, 8])]},
+        {"id": 3, "kind": "plain", "base": 2, "over": {"3": "s101", "0": "i0"}},
     ]
 }
 
@@ -338,7 +384,13 @@ def gen_value(rng, fam, ty, depth=1):
         return " ".join(["D", str(len(d))] + [f"{a} {b}" for a, b in d.items()])
     if k == "spec":
         return gen_inst(rng, fam, ty[1], depth)
+    if k == "valid":
+        return rng.choice(VALID_GOOD[ty[1]])
     raise ValueError(ty)
+
+
+VALID_GOOD = {0: ["i0", "i1", "i3", "i20"], 1: ["i1", "i2", "i10"], 2: ["s100", "s101", "s1100"], 3: ["i0", "i2", "i-4", "i20"]}
+VALID_BAD = {0: ["i-4", "i-1"], 1: ["i0", "i-4", "i13", "i20"], 2: ["s999"], 3: ["i1", "i3", "i13"]}
 
 
 def subclasses_of(fam, cid):
@@ -611,22 +663,99 @@ def directed_cases(rng, fam, fname):
                    "ops": ops[i:i + 12], "origin": "directed-falsy"}
 
 
+def inv_cases(rng, fam, fname):
+    """
+    Writes of a value EQUAL to the stored one must still put the dependants (`invalidated_by`) back at their
+    defaults: move the dependants off their defaults, then write the invalidating attribute through every route
+    (equal value, identity transform, reset while already at the default), by copy and in place.
+    """
+    for cid in top_classes(fam):
+        eff = V.effective_attrs(fam, cid)
+        deps = [ad for ad in eff if ad.get("inv")]
+        srcs = sorted({a for ad in deps for a in ad["inv"]})
+        for src in srcs:
+            sad = attr_desc(fam, cid, src)
+            if sad is None or sad["ty"][0] == "spec":
+                continue
+            v = gen_value(rng, fam, sad["ty"], 0)
+            for route in ("with", "set", "upd", "UPD", "tra", "TRA", "rst", "del", "RST1"):
+                for fl in ("-", "i"):
+                    ops = [{"k": "set", "a": src, "v": v}]
+                    if route in ("rst", "del", "RST1"):
+                        ops = [{"k": "rst", "fl": "i", "a": src}] if sad.get("d") is not None else ops
+                    for ad in deps:                       # off their defaults (in dependency order: sources first)
+                        if ad["ty"][0] != "spec":
+                            ops.append({"k": "with", "fl": "i", "a": ad["name"], "v": gen_value(rng, fam, ad["ty"], 0), "kw": []})
+                    deps_rev = list(reversed(deps))
+                    for ad in deps_rev:
+                        if ad["ty"][0] != "spec":
+                            ops.append({"k": "with", "fl": "i", "a": ad["name"], "v": gen_value(rng, fam, ad["ty"], 0), "kw": []})
+                    if route in ("with", "upd"):
+                        ops.append({"k": route, "fl": fl, "a": src, "v": v, "kw": []})
+                    elif route == "set":
+                        ops.append({"k": "set", "a": src, "v": v})
+                    elif route == "UPD":
+                        ops.append({"k": "UPD", "fl": fl, "v": "M", "kw": [[src, v]]})
+                    elif route == "tra":
+                        ops.append({"k": "tra", "fl": fl, "a": src, "f": "idt", "kt": []})
+                    elif route == "TRA":
+                        ops.append({"k": "TRA", "fl": fl, "f": None, "kt": [[src, "idt"]]})
+                    elif route == "rst":
+                        ops.append({"k": "rst", "fl": fl, "a": src})
+                    elif route == "del":
+                        ops.append({"k": "del", "a": src})
+                    else:
+                        ops.append({"k": "rst", "fl": fl, "a": src})
+                    yield {"family": fam, "fname": fname, "cls": cid, "init": [], "ops": ops, "origin": "directed-invalidation"}
+
+
+def prep_inherit_cases(rng, fam, fname):
+    """
+    Preparers / item preparers declared on a base class must still apply in spec subclasses that re-default or
+    re-annotate the attribute (and in their plain subclasses): every route, with values the preparer changes.
+    """
+    for cid in top_classes(fam):
+        eff = [ad for ad in V.effective_attrs(fam, cid) if (ad.get("prep") is not None or ad.get("ip") is not None)
+               and ad["ty"][0] != "spec"]
+        for fl in ("-", "i", "a"):
+            ops = []
+            for ad in eff:
+                a = ad["name"]
+                v = gen_arg(rng, fam, ad, sentinel_p=0.0, bad_p=0.0)
+                ops += [{"k": "with", "fl": fl, "a": a, "v": v, "kw": []},
+                        {"k": "set", "a": a, "v": gen_arg(rng, fam, ad, sentinel_p=0.0, bad_p=0.0)},
+                        {"k": "upd", "fl": fl, "a": a, "v": gen_arg(rng, fam, ad, sentinel_p=0.0, bad_p=0.0), "kw": []},
+                        {"k": "tra", "fl": fl, "a": a, "f": rng.choice(["idt", "inc", "cst " + gen_value(rng, fam, ad["ty"], 0)]), "kt": []},
+                        {"k": "UPD", "fl": fl, "v": "M", "kw": [[a, gen_arg(rng, fam, ad, sentinel_p=0.0, bad_p=0.0)]]},
+                        {"k": "TRA", "fl": fl, "f": None, "kt": [[a, rng.choice(["idt", "inc"])]]},
+                        {"k": "rst", "fl": fl, "a": a}, {"k": "set", "a": a, "v": gen_value(rng, fam, ad["ty"], 0)},
+                        {"k": "del", "a": a}]
+            for i in range(0, len(ops), 12):
+                init = [[ad["name"], gen_arg(rng, fam, ad, sentinel_p=0.0, bad_p=0.0)] for ad in eff[:3]]
+                yield {"family": fam, "fname": fname, "cls": cid, "init": init if i else [], "ops": ops[i:i + 12],
+                       "origin": "directed-inherited-preparer"}
+
+
 def gen_cases(tier, rng):
     nfam = {"quick": 5, "thorough": 40, "search": 12}[tier]
-    fams = [("main", FAMILY_MAIN), ("prep", FAMILY_PREP), ("falsy", FAMILY_FALSY)] + [
-        (f"rnd{i}", random_family(rng)) for i in range(nfam)]
+    fams = [("main", FAMILY_MAIN), ("prep", FAMILY_PREP), ("falsy", FAMILY_FALSY), ("inv", FAMILY_INV),
+            ("lazy", lazy_variant(FAMILY_PREP))] + [(f"rnd{i}", random_family(rng)) for i in range(nfam)]
     if tier == "search":
         while True:
             fname, fam = rng.choice(fams)
             yield gen_case(rng, fam, fname, rng.randint(1, 8))
         return
     # directed: defaults of the receiver's own class, reset after unset attributes, falsy values
-    for fname, fam in fams[:3] + (fams[3:5] if tier == "quick" else fams[3:]):
+    for fname, fam in fams[:5] + (fams[5:7] if tier == "quick" else fams[5:]):
         yield from directed_cases(rng, fam, fname)
     yield from baddefault_cases()
+    for fname, fam in fams[:5] + (fams[5:] if tier != "quick" else []):
+        yield from inv_cases(rng, fam, fname)
+    yield from prep_inherit_cases(rng, FAMILY_PREP, "prep")
+    yield from prep_inherit_cases(rng, fams[4][1], "lazy")
     n = 1000 if tier == "quick" else 22000
     for i in range(n):
-        fname, fam = fams[i % len(fams)] if rng.random() < 0.7 else rng.choice(fams[:3])
+        fname, fam = fams[i % len(fams)] if rng.random() < 0.7 else rng.choice(fams[:5])
         yield gen_case(rng, fam, fname, rng.randint(4, 14))
 
 
@@ -888,6 +1017,9 @@ def p_conforms(fam, ty, v):
         return isinstance(v, dict) and all(p_conforms(fam, ty[1], a) and p_conforms(fam, ty[2], b) for a, b in v.items())
     if k == "spec":
         return isinstance(v, PInst) and (v.cid == ty[1] or ty[1] in V.supers(fam, v.cid))
+    if k == "valid":
+        return (not isinstance(v, (list, set, dict, PInst))) and not is_sentinel(v) and p_conforms(fam, ty[2], v) \
+            and bool(V.VALID_PRED[ty[1]](v))
     raise ValueError(ty)
 
 
@@ -942,8 +1074,22 @@ def doc_prepared(fam, inst, ad, v):
     return v
 
 
-def doc_assign(fam, inst, a, v):
-    """obj.a = v  ==  obj[a := prepared v], type checked"""
+def doc_invalidate(fam, inst, a):
+    """`invalidated_by`: every attribute declared invalidated_by=[a] is back at its default, and so on for its dependants"""
+    for ad in V.effective_attrs(fam, inst.cid):
+        if a in (ad.get("inv") or []) and ad["name"] != a:
+            d = doc_default(fam, inst.cid, ad["name"])
+            inst = PInst(inst.cid, dict(inst.f))
+            if d is V.S("MISSING"):
+                inst.f.pop(ad["name"], None)
+            else:
+                inst.f[ad["name"]] = d
+            inst = doc_invalidate(fam, inst, ad["name"])
+    return inst
+
+
+def doc_assign(fam, inst, a, v, invalidate=True):
+    """obj.a = v  ==  obj[a := prepared v], type checked; the dependants of `a` go back to their defaults"""
     ad = attr_desc(fam, inst.cid, a)
     if ad is None:
         raise Undoc("unmanaged attribute")
@@ -954,7 +1100,7 @@ def doc_assign(fam, inst, a, v):
         raise DocError("non-conforming")
     out = PInst(inst.cid, dict(inst.f))
     out.f[a] = pv
-    return out
+    return doc_invalidate(fam, out, a) if invalidate else out
 
 
 def doc_construct(fam, cid, kw):
@@ -969,14 +1115,16 @@ def doc_construct(fam, cid, kw):
     if key is not None and key not in kwd and attr_desc(fam, cid, key).get("d") is None:
         raise DocError("missing key")
     inst = PInst(cid, {})
-    for ad in eff:
+    by_name = {ad["name"]: ad for ad in eff}
+    for name in V.init_order(fam, cid):   # parents' constructors run first (InitMethod's doc-string)
+        ad = by_name[name]
         v = kwd.get(ad["name"], V.S("MISSING"))
         if v is V.S("MISSING"):
             v = doc_default(fam, cid, ad["name"])
         if v is not V.S("MISSING"):
             if is_sentinel(v):
                 raise Undoc("sentinel keyword in a constructor")
-            inst = doc_assign(fam, inst, ad["name"], v)
+            inst = doc_assign(fam, inst, ad["name"], v, invalidate=False)   # nothing to invalidate while constructing
     return inst
 
 
@@ -1108,6 +1256,7 @@ def doc_apply(fam, classes, pre, op):
                 return ("ok-or-attributeerror", pre, "self" if inplace else "any", pre, sent)
             new = PInst(pre.cid, dict(pre.f))
             del new.f[a]
+            new = doc_invalidate(fam, new, a)
         else:
             new = doc_assign(fam, pre, a, d)  # the default a new instance would get (prepared, checked)
         return done(new)
@@ -1154,7 +1303,10 @@ def doc_apply(fam, classes, pre, op):
         for ad2 in V.effective_attrs(fam, pre.cid):
             d = doc_default(fam, pre.cid, ad2["name"])
             if d is V.S("MISSING"):
-                new.f.pop(ad2["name"], None)
+                if ad2["name"] in new.f:
+                    new = PInst(new.cid, dict(new.f))
+                    del new.f[ad2["name"]]
+                    new = doc_invalidate(fam, new, ad2["name"])
             else:
                 new = doc_assign(fam, new, ad2["name"], d)
         return done(new)
